@@ -12,7 +12,7 @@ def run(tier, seed):
     if r["violated"]:
         raise common.Inconclusive("SpecValidator.tla violates %s (spec bug)" % r["violated"])
     check.add_tlc(r)
-    args = ["-seed", seed, "-bases", 4 if quick else 0, "-edits", 160 if quick else 0, "-double", 0.15]
+    args = ["-seed", seed, "-bases", 4 if quick else 0, "-edits", 160 if quick else 600, "-double", 0.15]
     fails = specfam.run_spec(check, vh, "edits", args, ["C07"], [], shards=8 if quick else 14)
     specfam.report(check, fails, {})
     check.coverage["rule"] = ("base documents (hand-written valid documents, plus every fixture under fixtures/validation and fixtures/petstore that loads in the thorough tier) x structural edits at every "
